@@ -150,10 +150,34 @@ class Property(cssutils.util.Base):
                 )
 
             if wellformed:
-                self.wellformed = True
-                self.name = nametokens
-                self.propertyValue = valuetokens
-                self.priority = prioritytokens
+                # saved to be reset if setting one of the parts raises
+                old = (
+                    self.wellformed,
+                    self._name,
+                    self._literalname,
+                    self.__nametoken,
+                    list(self.seqs),
+                    self._priority,
+                    self._literalpriority,
+                )
+                try:
+                    self.wellformed = True
+                    self.name = nametokens
+                    # a new object, the old value is not changed in place
+                    self.seqs[1] = PropertyValue(parent=self)
+                    self.propertyValue = valuetokens
+                    self.priority = prioritytokens
+                except Exception:
+                    (
+                        self.wellformed,
+                        self._name,
+                        self._literalname,
+                        self.__nametoken,
+                        self.seqs[:],
+                        self._priority,
+                        self._literalpriority,
+                    ) = old
+                    raise
 
                 # also invalid values are set!
 
